@@ -1,0 +1,25 @@
+//go:build verif
+
+package hsms
+
+// This file exists only under the `verif` build tag. It exports seams for the external
+// verification harness (/verif, properties C09/C20): it adds code only and changes no
+// production behaviour.
+
+// VerifSetSendHooks installs the two test seams the connection already has —
+// testHookAfterWriteLock (called by writeFrame after it took the generation's write lock and
+// captured the generation's socket, before the checks and the write) and testHookConnectLoop
+// (called by the reconnect loop between its backoff and its publish fence). Either may be nil.
+// It must be called before Open (the fields are plain, as in the in-package tests). It reports
+// false when c is not the engine's connection type.
+func VerifSetSendHooks(c Connection, afterWriteLock, connectLoop func()) bool {
+	cc, ok := c.(*connection)
+	if !ok {
+		return false
+	}
+
+	cc.testHookAfterWriteLock = afterWriteLock
+	cc.testHookConnectLoop = connectLoop
+
+	return true
+}
